@@ -167,14 +167,13 @@ class WriteAheadLogCommitRecord(Version):
         # Iterate through the frames
         for frame in frames:
 
-            # Make sure the page number to the current frame doesn't already exist in the previous frames
-            if frame.header.page_number in self.frames:
-                log_message = "Frame page number: {} found already existing in frame page numbers: {} in version: {}."
-                log_message = log_message.format(
-                    frame.header.page_number, self.frames.keys(), self.version_number
-                )
-                self._logger.error(log_message)
-                raise WalCommitRecordParsingError(log_message)
+            """
+
+            Note:  A transaction that spills the page cache writes the same page more than once.  The later frame
+                   supersedes the earlier one (this is also how SQLite reads the write ahead log), which is what
+                   the assignment into the frames dictionary below does.
+
+            """
 
             # Check if the frame is a commit frame
             if frame.commit_frame:
